@@ -53,7 +53,7 @@ func opsString(h []op) string {
 	return strings.Join(s, " ; ")
 }
 
-var names = []string{"a", "b", "a b", "ab"}
+var names = []string{"a", "b", "a b", "ab", "A"} // "A": differs from "a" only in letter case (distinct files on a case-sensitive file system)
 
 // alphabet, simplest first (so that the first counterexample is the shortest and plainest).
 func alphabet(m *mstate) []op {
